@@ -305,6 +305,24 @@ def _make_bins_2d():
     return hist_initial("2d", "make_bins")
 
 
+_FRACSUM = []
+
+
+def frac_sum_class():
+    import lena.flow
+    import lena.math
+    if not _FRACSUM:
+        class FracSum(lena.math.Sum):
+            """Exact summation: every filled number is added as a Fraction."""
+
+            def fill(self, value):
+                data, context = lena.flow.get_data_context(value)
+                self._total = Fraction(self._total) + Fraction(data)
+                self._cur_context = context
+        _FRACSUM.append(FracSum)
+    return _FRACSUM[0]
+
+
 def build(er, default_start=False):
     """Fresh real element from recipe. *default_start*: drop Sum/DSum/Count start values."""
     import lena.core
@@ -333,6 +351,10 @@ def build(er, default_start=False):
         elif er[1] == "sum":
             kw["sum_sq"] = lena.math.Sum()
             kw["sum_"] = lena.math.Sum()
+        elif er[1] == "fracsum":
+            # a user's subclass of Sum that sums exactly (in Fractions)
+            kw["sum_sq"] = frac_sum_class()()
+            kw["sum_"] = frac_sum_class()()
         if not er[2]:
             kw["corrected"] = False
         if er[3]:
@@ -427,7 +449,7 @@ def rand_elem(rng, for_history=False):
     if k == "mean":
         return ["mean", rng.choice([None, None, "sum", "dsum"]), rng.random() < 0.4]
     if k == "vmc":
-        return ["vmc", rng.choice([None, None, "sum", "dsum"]), rng.random() < 0.6,
+        return ["vmc", rng.choice([None, None, "sum", "dsum", "fracsum"]), rng.random() < 0.6,
                 rng.random() < 0.4]
     if k == "vec":
         return ["vec", rand_inner(rng), rng.randint(1, 3)]
@@ -778,6 +800,11 @@ def expect(er, vals, values=None):
         var_b = 8 * (n + 2) * EPS * (msq + mean * mean) * scale + TINY
         mean_b = (n + 4) * EPS * sum(abs(x) for x in fx) / n + TINY
         cv, cm = d_approx(var * scale, var_b), d_approx(mean, mean_b)
+        if er[1] == "fracsum":
+            # exact sums were supplied: the results are exact (of the squares as the element
+            # forms them, data**2 in the type of the data)
+            msq_e = sum(Fraction(x ** 2) for x in xs) / n
+            cv, cm = d_frac_exact((msq_e - mean * mean) * scale), d_frac_exact(mean)
 
         def dchk(d):
             if not (isinstance(d, tuple) and type(d).__name__ == "variance_mean_count"
